@@ -39,6 +39,21 @@ CHECKS = {
  "C17": dict(engine=E1, technique="explicit-state BFS over sequences of veneer rules loaded through the YAML loader and applied by the real rewriter; well-typedness invariant in every state and per-rule contracts on every transition",
    text="From the builder sets derived from 17 seed schemas, all rule sequences of length <=2 (thorough: full alphabet as second step + depth 3 reduced) over all 10 builder and 12 option rule kinds x selector forms (by object/name/builder/names, other-case, absent); every assignment path must name an existing chain of fields with matching types, every used argument must be declared, unselected builders/options must be canonically identical, and the Appendix A.4 contracts (omit/rename/duplicate/append/index/unfold/struct-fields/disjunction) must hold; duplicates must share no memory with their source.",
    note="Rules returning an error are allowed outcomes; an option a structural rule leaves unchanged is accepted; compose gets the frame check and the invariant only.", ref="§6 C17, App. A.4"),
+ "C08": dict(engine=E3, technique="exhaustive enumeration of constraint-bearing schemas x formats x (valid documents + every single-fault document); reference evaluator (Appendix A.3) cross-checked against the reference validators",
+   text="The constrained scalars of grammar G are placed at every position up to depth 2 (thorough 3: arrays, maps, nested/optional/referenced structs, union branches) plus the plain part for the strict-decoder clauses; for every valid document every fault operator is applied at every position (bounds below/at/above, lengths incl. multi-byte, unknown key, missing required with/without default, null, each wrong JSON type); Validate() must fail iff the evaluator finds a violated constraint and must name its path; UnmarshalJSONStrict must fail iff one of the four conditions holds. Evaluator and reference validators must agree on every comparable document (disagreement = harness error).",
+   note="Validate() is judged only where the document determines the decoded value; null at non-nullable optional/element positions, enum non-members and constant mismatches leave the strict verdict unjudged; error wording and order are free.", ref="§6 C08, App. A.3"),
+ "C10": dict(engine=E3, technique="exhaustive enumeration of default/constant-bearing schemas x 3 formats; generated Go and Python default constructors executed and compared with the declared literals and with each other",
+   text="Fields with a declared default of every value type (bool, int, float, string, date-time, enum member, enum through a reference, lists, partial and complete struct defaults, union-branch defaults) and constants, required and optional, in every input format that can express them; one pipeline run generates Go and Python; NewX() / X() of every struct object are executed; each declared field must hold exactly its literal in both languages and the two must agree.",
+   note="A default is judged only if the source format's own validator accepts it; defaults beside $ref in JSON Schema/OpenAPI and OpenAPI pseudo-constants are out of scope; fields without default/constant are not compared.", ref="§6 C10"),
+ "C11": dict(engine=E3, technique="exhaustive enumeration of grammar G x 3 formats x accepted documents; generated Python executed in a long-lived interpreter and compared with the input and with the generated Go of the same run",
+   text="One pipeline run per case generates Go and Python; every document all reference validators accept goes through Python from_json -> JSONEncoder and must be JSON-equal to the input (same leniences as C01) and to what the Go driver re-encodes; struct-typed positions must hold generated class instances (not raw dicts).",
+   note="Modules that do not import are blocked_by=C02; exact numbers, key order free, optional explicit null may disappear.", ref="§6 C11"),
+ "C12": dict(engine=E3, technique="exhaustive enumeration of grammar G (+ cross-package inputs) x formats; emitted JSON Schema/OpenAPI checked by independent loaders, cog's own parsers, $ref resolution, IR carry-over and validation of every Go encoding",
+   text="Each case emits Go + JSON Schema + OpenAPI in one real run; (1) santhosh-tekuri compile, Python jsonschema check_schema, kin-openapi load+Validate, and a second pipeline run reading the emitted file back; (2) every $ref resolves, every IR object/field appears; (3) the Go re-encoding of every accepted document and of NewRoot() validates against the emitted definition (reported only when two validators agree); (4) required-ness, constraints (per dialect), enum values, constants, defaults and nullability are carried over from the IR.",
+   note="Go that does not compile is blocked_by=C02; the JSON Schema input language cannot express cross-package references.", ref="§6 C12"),
+ "C13": dict(engine=E3, technique="exhaustive enumeration of schemas x decoded value sets; full Equals matrix (all ordered pairs, all triples) computed by the generated code and checked against the equivalence laws and encoded equality",
+   text="Per root type: the first 8 (thorough 12) valid documents plus every single-leaf variation of the richest one; the generated Equals is evaluated on all ordered pairs (one driver request per case returns the matrix and the std encodings); reflexivity, symmetry, transitivity (all triples), equal encodings => Equals, Equals => equal encodings modulo absent/null/empty collections, no panics; two Go configurations (equal+json marshaller, equal only).",
+   note="Values whose decoding fails are skipped and counted; a difference the decoder itself loses demands nothing.", ref="§6 C13"),
 }
 
 NOT_YET = "check not built yet in this session (planned, see DESIGN.md §6); not claimed until it runs clean on the unchanged tree"
